@@ -147,8 +147,7 @@ theorem advancePc_data (op : Op) (pc : Pc) (n : Nat) (r : Res) (hd : pc.isData =
     (advancePc op pc n r).retNoHandle ∧ (∀ s, advancePc op pc n r ≠ .user s) ∧
     ∀ fd', (advancePc op pc n r).fd? = some fd' → pc.fd? = some fd' ∧ (advancePc op pc n r).locked = true := by
   cases pc <;> simp [Pc.isData] at hd
-  all_goals simp only [advancePc, rollbackPc, Gen.Lockedfile.truncAfterLock, Gen.Lockedfile.tRollback,
-    Gen.Lockedfile.tTailFirst, if_true, Bool.and_true]
+  all_goals simp only [advancePc, rollbackPc, Gen.Lockedfile.truncAfterLock, if_true]
   all_goals (repeat' split)
   all_goals first
     | (simp [Pc.retNoHandle, Pc.fd?, Pc.locked, Ret.isHandle]; done)
